@@ -644,6 +644,17 @@ func (in *Interp) intrinsic(name string, fn *ssa.Function, args []Value) []Value
 	case "(*sync.RWMutex).Lock", "(*sync.RWMutex).Unlock", "(*sync.RWMutex).RLock", "(*sync.RWMutex).RUnlock",
 		"(*sync.Mutex).Lock", "(*sync.Mutex).Unlock":
 		return in.lockOp(name, args)
+	case "runtime.GOMAXPROCS", "runtime.NumCPU":
+		// environment: the processor count is an arbitrary value in 1..4 (stated bound), one path
+		// each; the native replay runs with GOMAXPROCS set to the value of its path
+		if len(in.replayEnv) == 0 {
+			k := in.chooseAmong(4, "runtime-processor-count") + 1
+			in.stubs["runtime.GOMAXPROCS/NumCPU: arbitrary processor count in 1..4 (one value per path)"] = true
+			in.replayEnv = append(in.replayEnv, fmt.Sprintf("GOMAXPROCS=%d", k))
+		}
+		var k int
+		fmt.Sscanf(in.replayEnv[0], "GOMAXPROCS=%d", &k)
+		return []Value{in.ts.IntConst64(in.intSort(), int64(k))}
 	case "(*sync.Pool).Get", "(*sync.Pool).Put":
 		return in.poolOp(name, fn, args)
 	case "time.Now", "time.Since", "(time.Time).Sub", "time.Sleep", "(time.Duration).Seconds", "(time.Duration).String":
